@@ -1,6 +1,7 @@
 import Cirbo.Proofs.Func
 import Cirbo.Proofs.FuncSym
 import Cirbo.Proofs.FuncIdx
+import Cirbo.Proofs.FuncDefine
 /-!
 # C12 — All function representations answer every protocol query alike and correctly
 
@@ -22,7 +23,8 @@ lookup at the canonical index) and `PyFunction` (ev = the callable).  The querie
 -- OBLIGATION: c12_pyfunction_is_monotone
 -- OBLIGATION: c12_truth_table_order
 -- OBLIGATION: c12_truth_table_equal_to_input
--- PARTIAL: not yet proved (modelled and compared with the code exhaustively for n<=2,m<=2 and sampled beyond): define() and the integer wrappers' bit order (`bin()` digit strings). find_negations_to_make_symmetric: that the returned vector is the first in enumeration order is by correspondence (the theorem says it works, and that None means none works).
+-- OBLIGATION: c12_define
+-- PARTIAL: not yet proved (modelled and compared with the code exhaustively for n<=2,m<=2 and sampled beyond): the integer wrappers' bit order (`bin()` digit strings). find_negations_to_make_symmetric: that the returned vector is the first in enumeration order is by correspondence (the theorem says it works, and that None means none works).
 -/
 namespace Cirbo
 open FRep
@@ -132,5 +134,26 @@ example : exF.isConstant = false ∧ exF.equalInput 1 1 = true ∧ exF.isDepende
 #print axioms c12_pyfunction_is_monotone
 #print axioms c12_truth_table_order
 #print axioms c12_truth_table_equal_to_input
+
+/-- **completing a partially defined model** (`define`): wherever the model is defined the completed
+table has the model's value — whatever the definition lists for that position —, the shape is kept,
+and a don't-care entry takes the value the definition gives for it (it stays a don't-care only if the
+definition has no item for it; `PyFunctionModel` raises `KeyError` lazily in that case) -/
+theorem c12_define (model : List (List (Option Bool))) (defn : List ((List Bool × Nat) × Bool)) :
+    (∀ o i b, FRep.entryT model o i = some b → FRep.entryT (FRep.defineTable model defn) o i = some b) ∧
+    (FRep.defineTable model defn).length = model.length ∧
+    (∀ o, ((FRep.defineTable model defn).getD o []).length = (model.getD o []).length) ∧
+    (∀ o i b, o < model.length → i < (model.getD o []).length → FRep.entryT model o i = none →
+      (∀ d ∈ defn, d.1.2 = o → FRep.canonicalIndex d.1.1 = i → d.2 = b) →
+      (∃ d ∈ defn, d.1.2 = o ∧ FRep.canonicalIndex d.1.1 = i) →
+      FRep.entryT (FRep.defineTable model defn) o i = some b) :=
+  ⟨FRep.define_keeps_defined defn model, (FRep.define_shape defn model).1, (FRep.define_shape defn model).2,
+    fun o i b ho hi hn hall hex => (FRep.define_fills defn model o i ho hi hn).1 b hall hex⟩
+
+/-- non-vacuity: an over-specified definition does not overwrite a defined entry -/
+example : FRep.defineTable [[some false, none]] [(([false], 0), true), (([true], 0), true)] = [[some false, some true]] := by
+  decide
+
+#print axioms c12_define
 
 end Cirbo
